@@ -244,7 +244,13 @@ def predicate(o, m=None):
         return 'a message the sender could not build (%s) broke the connection' % o['errors'][0][4]
     own_sar = o.get('own_sar', True)         # recorded before the message was queued
     if o['written'] and not o['errors'] and len(o['written']) > 1 and not own_sar:
-        return segments_consistent(o['written'])
+        # a NUL inside a C-octet-string field (the library does not refuse it) ends the field early for every reader:
+        # an independent parser cannot locate the segmentation data of such a PDU, the model comparison still applies
+        nul = m is not None and any('\x00' in str(x or '') for x in (
+            getattr(m, 'service_type', ''), getattr(getattr(m, 'source', None), 'number', ''),
+            getattr(getattr(m, 'destination', None), 'number', '')))
+        if not nul:
+            return segments_consistent(o['written'])
     return None
 
 
